@@ -411,13 +411,62 @@ type evalOut struct {
 }
 
 // evaluate runs one byte string through every path with the cache cold and warm.
+// primers are byte strings an attacker can derive from raw WITHOUT any further signature and that may
+// verify in another context: the same content and signature under a multisig key whose (unsigned) policy
+// asks for fewer signers. Such a key belongs to a different account, so the primer itself must not move
+// anything (it is judged as a tampered variant elsewhere); what matters here is that whatever the node
+// remembers from verifying it must not make raw acceptable afterwards.
+func primers(raw []byte) (out [][]byte) {
+	root, err := txlab.Parse(raw, txlab.TxSchema, "")
+	if err != nil || root.At([]uint64{3}) == nil || root.At([]uint64{3}).Get(1) == nil {
+		return nil
+	}
+	mk, err := txlab.Parse(root.At([]uint64{3}).Get(1).Bytes, nil, "")
+	if err != nil || mk.Get(2) == nil || len(mk.Fields) < 2 {
+		return nil // not a serialized multisig key
+	}
+	for _, th := range []uint64{1, 0} {
+		c := mk.Clone()
+		var kept []*txlab.Field
+		for _, f := range c.Fields {
+			if f.Num != 3 {
+				kept = append(kept, f)
+			}
+		}
+		c.Fields = kept
+		if th != 0 {
+			c.Fields = append(c.Fields, &txlab.Field{Num: 3, WT: txlab.WTVarint, Varint: th})
+		}
+		r2 := root.Clone()
+		setField(r2.At([]uint64{3}), &txlab.Field{Num: 1, WT: txlab.WTBytes, Bytes: c.Encode()})
+		if bz := r2.Encode(); !bytes.Equal(bz, raw) {
+			out = append(out, bz)
+		}
+	}
+	return
+}
+
 func evaluate(raw []byte, paths []string, blockWarm bool) []evalOut {
 	var outs []evalOut
+	prim := primers(raw)
 	for _, path := range paths {
 		crypto.SignatureCache.Reset()
 		for _, cache := range []string{"cold", "warm"} {
 			if path == "block" && cache == "warm" && !blockWarm {
 				continue
+			}
+			if cache == "warm" {
+				// between the cold and the warm evaluation the attacker shows the node its primers
+				for _, pr := range prim {
+					switch path {
+					case "block":
+						lab.ProbeBlock([][]byte{pr}, false)
+					case "single":
+						lab.ProbeSingle(pr)
+					case "checktx":
+						lab.CheckTxSingle(pr)
+					}
+				}
 			}
 			o := evalOut{path: path, cache: cache}
 			switch path {
